@@ -994,8 +994,29 @@ def generate(seed=0, validate=True, write=True, only=None):
     return stats, changed
 
 
+STALE_MARK = "(* STALE: the translator failed on the current sources"
+
+
+def invalidate(modules, reason):
+    """Replace the Gen files of the given modules by a stub without definitions, so that nothing can
+    be proved (and no later step can look green) about code the translator could not read."""
+    mods = sorted({e['gen_module'] for e in REGISTRY if not modules or e['gen_module'] in modules})
+    for mod in mods:
+        path = os.path.join(GEN_DIR, mod + '.v')
+        first = str(reason).strip().splitlines()[-1][:300].replace('*)', '* )') if str(reason).strip() else ''
+        body = (f"{STALE_MARK} -- the definitions were removed;\n   every proof about them is "
+                f"undischarged until tools/gen_mx.py succeeds again.\n   {first} *)\n")
+        old = open(path).read() if os.path.exists(path) else None
+        if old != body:
+            with open(path, 'w') as f:
+                f.write(body)
+    return mods
+
+
 def run_generate(r, modules):
-    """harness hook (like check.Run.generate): regenerate + validate under the build lock."""
+    """harness hook (like check.Run.generate): regenerate + validate under the build lock.
+    On failure the Gen files are invalidated and False is returned: the caller must not call r.prove
+    (see `prove_or_undischarged`)."""
     import time
     import common
     t0 = time.time()
@@ -1008,8 +1029,27 @@ def run_generate(r, modules):
               f"{len(changed)} Gen file(s) changed, {time.time() - t0:.1f}s")
         return True
     except Exception as ex:
-        r.broken('translator', type(ex).__name__, traceback.format_exc())
+        tb = traceback.format_exc()
+        r.broken('translator', type(ex).__name__, tb)
+        try:
+            with common.Lock():
+                mods = invalidate(modules, tb)
+            r.log(f"translator failed: Gen file(s) {mods} invalidated (no stale definitions left)")
+        except Exception:
+            r.log("could not invalidate the Gen files:\n" + traceback.format_exc())
         return False
+
+
+def prove_or_undischarged(r, ok, props_file):
+    """r.prove only if the translator succeeded; otherwise record every theorem of the property file
+    as an obligation that is NOT discharged (the generated definitions do not describe the code)."""
+    import common
+    if ok:
+        return r.prove(props_file)
+    r.obligations += common.theorems_in(props_file)
+    r.broken('proof', props_file, "not attempted: the translator failed, so no theorem is about the current "
+             "sources; all obligations of this file are undischarged")
+    return False
 
 
 # ---------------------------------------------------------------------------
